@@ -36,6 +36,7 @@ import (
 
 	"verif/core"
 	"verif/ids"
+	"verif/vnet"
 )
 
 var c20Opts = core.Opts{ID: "C20", Quick: 16, Thorough: 320}
@@ -47,6 +48,9 @@ type c20Job struct {
 	// Recheck: the periodic connect check of A is triggered while the link is up.
 	// RestartB: B is stopped and a new B is constructed and started while A keeps running.
 	Mutual, Recheck, RestartB bool
+	// ViaFile: the configurations reach the routers through a JSON configuration
+	// file (config.LoadConfig), as they do in the program.
+	ViaFile bool
 }
 
 type c20Cycle struct {
@@ -110,15 +114,21 @@ func TestC20Child(t *testing.T) {
 		_ = os.WriteFile(jobPath+".result", b, 0o644)
 	}
 	defer out()
+	parse := func(st config.Store) (*config.Config, error) {
+		if job.ViaFile {
+			return vnet.LoadViaFile(st, "json")
+		}
+		return st.Parse()
+	}
 	for cy := 0; cy < job.Cycles; cy++ {
 		var cyc c20Cycle
 		cyc.GoBefore = c20Settle()
-		cfgA, err := job.A.Parse()
+		cfgA, err := parse(job.A)
 		if err != nil {
 			res.Fatal = "config A: " + err.Error()
 			return
 		}
-		cfgB, err := job.B.Parse()
+		cfgB, err := parse(job.B)
 		if err != nil {
 			res.Fatal = "config B: " + err.Error()
 			return
@@ -207,7 +217,7 @@ func TestC20Child(t *testing.T) {
 		}
 		if cyc.Linked && cyc.PingOK && job.RestartB {
 			cyc.StopB1 = b.Stop()
-			cfgB2, err := job.B.Parse()
+			cfgB2, err := parse(job.B)
 			if err != nil {
 				res.Fatal = "config B (restart): " + err.Error()
 				return
@@ -347,11 +357,77 @@ func TestC20(t *testing.T) {
 			st.Router.Stub = c.Chance(label+".stub", 1, 4)
 			st.Router.Isolate = c.Chance(label+".isolate", 1, 4)
 			st.System.DisableTun = true
-			for i, n := 0, c.Int(label+".services", 0, 3); i < n; i++ {
-				st.ServiceConfigs = append(st.ServiceConfigs, config.ServiceConfig{Name: fmt.Sprintf("svc%d", i), URL: fmt.Sprintf("tcp://:%d", 1000+i), Public: true, Advertise: c.Bool(label + ".advertise")})
-			}
-			for i, n := 0, c.Int(label+".friends", 0, 3); i < n; i++ {
+			nFriends := c.Int(label+".friends", 0, 3)
+			for i := 0; i < nFriends; i++ {
 				st.FriendConfigs = append(st.FriendConfigs, config.FriendConfig{Name: fmt.Sprintf("friend%d", i), IP: pool[(ia+ib+i+5)%len(pool)].Addr.IP.String()})
+			}
+			// Services: every documented scheme, explicit ports over the whole
+			// 16-bit range (edges weighted) or the scheme's default, every access
+			// rule; one service per protocol and port (a second one is a
+			// configuration error by design).
+			taken := map[string]bool{}
+			for i, n := 0, c.Int(label+".services", 0, 4); i < n; i++ {
+				scheme := core.OneOf(c, label+".svc.scheme", "tcp", "tcp", "udp", "http", "https", "icmp6", "ping6")
+				port := -1
+				if scheme == "tcp" || scheme == "udp" || c.Bool(label+".svc.port.given") {
+					if c.Bool(label + ".svc.port.edge") {
+						port = core.OneOf(c, label+".svc.port", 1, 22, 53, 80, 443, 1023, 1024, 8080, 32767, 32768, 40000, 47369, 65534, 65535)
+					} else {
+						port = c.Int(label+".svc.port.any", 1, 65535)
+					}
+				}
+				var keys []string
+				switch scheme {
+				case "tcp":
+					keys = []string{fmt.Sprintf("6-%d", port)}
+				case "udp":
+					keys = []string{fmt.Sprintf("17-%d", port)}
+				case "http", "https":
+					eff := port
+					if eff < 0 {
+						eff = map[string]int{"http": 80, "https": 443}[scheme]
+					}
+					keys = []string{fmt.Sprintf("6-%d", eff), fmt.Sprintf("17-%d", eff)}
+				default:
+					keys, port = []string{"58"}, -1
+				}
+				dup := false
+				for _, k := range keys {
+					dup = dup || taken[k]
+				}
+				if dup {
+					continue
+				}
+				for _, k := range keys {
+					taken[k] = true
+				}
+				url := scheme + "://" + core.OneOf(c, label+".svc.host", "", fmt.Sprintf("svc%d.myco", i))
+				if scheme == "icmp6" || scheme == "ping6" {
+					url = scheme + ":"
+				} else if port >= 0 {
+					url += fmt.Sprintf(":%d", port)
+				}
+				sc := config.ServiceConfig{Name: fmt.Sprintf("svc%d", i), URL: url, Advertise: c.Bool(label + ".advertise")}
+				if c.Bool(label + ".svc.described") {
+					sc.Description = "service <" + scheme + "> & more"
+				}
+				switch c.Pick(label+".svc.access", 3) {
+				case 0:
+					sc.Public = true
+				case 1:
+					sc.Friends = true
+				default:
+					if nFriends > 0 && c.Bool(label+".svc.for.friend") {
+						sc.For = append(sc.For, fmt.Sprintf("friend%d", c.Pick(label+".svc.for.fi", nFriends)))
+					} else {
+						sc.For = append(sc.For, pool[(ia+ib+11)%len(pool)].Addr.IP.String())
+					}
+					sc.Friends = c.Bool(label + ".svc.for.plus-friends")
+				}
+				if port >= 32768 {
+					c.Class("service-port-above-32767")
+				}
+				st.ServiceConfigs = append(st.ServiceConfigs, sc)
 			}
 			if c.Bool(label + ".resolve") {
 				st.ResolveConfig = map[string]string{"files.myco": pool[(ia+7)%len(pool)].Addr.IP.String()}
@@ -386,7 +462,7 @@ func TestC20(t *testing.T) {
 				mutual = true
 			}
 		}
-		job := c20Job{Cycles: c.Int("cycles", 1, 3), A: A, B: B, Mutual: mutual, Recheck: c.Chance("recheck", 2, 3), RestartB: c.Chance("restartB", 1, 2)}
+		job := c20Job{Cycles: c.Int("cycles", 1, 3), A: A, B: B, Mutual: mutual, Recheck: c.Chance("recheck", 2, 3), RestartB: c.Chance("restartB", 1, 2), ViaFile: c.Chance("config.via-file", 1, 3)}
 		jobPath := filepath.Join(work, "job.json")
 		data, _ := json.Marshal(job)
 		if err := os.WriteFile(jobPath, data, 0o644); err != nil {
@@ -403,7 +479,7 @@ func TestC20(t *testing.T) {
 		desc := fmt.Sprintf("host=%s ", host) + fmt.Sprintf("universe=%q secret=%v A{lite=%v stub=%v isolate=%v services=%d friends=%d state=%v api=%v listeners=%d} B{lite=%v stub=%v state=%v api=%v listens=%v} cycles=%d",
 			universe, secret != "", A.Router.Lite, A.Router.Stub, A.Router.Isolate, len(A.ServiceConfigs), len(A.FriendConfigs), A.System.StatePath != "", A.System.APIListen != "", len(A.Router.Listen),
 			B.Router.Lite, B.Router.Stub, B.System.StatePath != "", B.System.APIListen != "", len(B.Router.Listen) > 0, job.Cycles) +
-			fmt.Sprintf(" mutual=%v recheck=%v restartB=%v", job.Mutual, job.Recheck, job.RestartB)
+			fmt.Sprintf(" mutual=%v recheck=%v restartB=%v via-file=%v", job.Mutual, job.Recheck, job.RestartB, job.ViaFile)
 		c.Note("%s", desc)
 		if runErr != nil || rerr != nil {
 			tail := string(outb)
